@@ -587,7 +587,7 @@ func init() {
 		},
 		Require: []string{
 			"a_states_verified", "a_states_verified_as_left_by_operation", "a_differential_vs_fresh_parse", "a_histories_of_two_edits",
-			"a_op_applied:reroot", "a_op_applied:removetips", "a_op_applied:removeedge", "a_op_applied:graft", "a_op_applied:unroot", "a_op_applied:rename", "a_op_applied:shuffle", "a_op_applied:insert", "a_op_applied:clone",
+			"a_op_applied:reroot", "a_op_applied:outgroup", "a_op_applied:outgroup-remove", "a_op_applied:removetips", "a_op_applied:removeedge", "a_op_applied:graft", "a_op_applied:unroot", "a_op_applied:rename", "a_op_applied:shuffle", "a_op_applied:insert", "a_op_applied:clone",
 			"b_pairs_equal_split", "b_pairs_equal_split_opposite_orientation", "b_pairs_equal_split_across_different_trees", "b_pairs_different_split",
 			"c_edgeindex_histories", "c_edgeindex_operations_on_a_split_already_present", "c_edgeindex_hits_through_the_other_presentation", "c_edgeindex_insertions_reaching_capacity_x_loadfactor",
 			"c_edgeindex_bulk_histories", "c_edgeindex_bulk_insertions_reaching_capacity_x_loadfactor",
